@@ -39,7 +39,16 @@ func init() {
 	vf("vfByte", func(m *Machine, fr *frame, a []value) value { return m.newInput(a[0].(string), "byte", BV(8)) })
 	vf("vfRune", func(m *Machine, fr *frame, a []value) value { return m.newInput(a[0].(string), "rune", BV(32)) })
 	vf("vfBool", func(m *Machine, fr *frame, a []value) value { return m.newInput(a[0].(string), "bool", BoolSort) })
-	vf("vfCost", func(m *Machine, fr *frame, a []value) value { return m.newInput(a[0].(string), "cost", IntSort) })
+	vf("vfCost", func(m *Machine, fr *frame, a []value) value {
+		v := m.newInput(a[0].(string), "cost", IntSort)
+		if t, ok := v.(*Term); ok {
+			// integer-valued doubles with |c| ≤ 2^40: sums of a few dozen stay far below 2^53
+			lim := m.ts.IntConst64(1 << 40)
+			m.assumeTerm(m.ts.ICmp(OpILe, m.ts.IBin(OpISub, m.ts.IntConst64(0), lim), t))
+			m.assumeTerm(m.ts.ICmp(OpILe, t, lim))
+		}
+		return v
+	})
 	vf("vfChoice", func(m *Machine, fr *frame, a []value) value {
 		name := a[0].(string)
 		n := int(asInt64(a[1]))
